@@ -18,6 +18,9 @@ Fixpoint stmt_beq (a b : stmt) : bool :=
   | SWhile c x1 x2, SWhile e y1 y2 => cond_beq c e && block_beq x1 y1 && block_beq x2 y2
   | SBreak, SBreak | SContinue, SContinue => true
   | SReturn x, SReturn y => Nat.eqb x y
+  | STry a1 a2 a3 a4, STry b1 b2 b3 b4 => block_beq a1 b1 && blocks_beq a2 b2 && block_beq a3 b3 && block_beq a4 b4
+  | SWith x a1, SWith y b1 => Nat.eqb x y && block_beq a1 b1
+  | SRaise x, SRaise y => Nat.eqb x y
   | _, _ => false
   end
 with block_beq (a b : block) : bool :=
@@ -25,12 +28,27 @@ with block_beq (a b : block) : bool :=
   | BNil, BNil => true
   | BCons s r, BCons t q => stmt_beq s t && block_beq r q
   | _, _ => false
+  end
+with blocks_beq (a b : blocks) : bool :=
+  match a, b with
+  | HNil, HNil => true
+  | HCons s r, HCons t q => block_beq s t && blocks_beq r q
+  | _, _ => false
   end.
 
-(* index, input of the break pass, its real output (= input of the continue pass), real output of the continue pass *)
-Definition lcase : Set := (nat * block * block * block)%type.
+(* index, input of the break pass, its real output (= input of the continue pass), real output of the continue
+   pass (= input of the return pass), real output of the return pass with the function-level prologue /
+   epilogue stripped, whether that prologue / epilogue was present *)
+Definition lcase : Set := (nat * block * block * block * block * bool)%type.
+Definition return_pass (b : block) : block * bool := ret_block false false (fst (crr_block b)).
 Definition check_lcase (c : lcase) : bool :=
-  match c with (_, b0, b1, b2) =>
-    block_beq (fst (fst (brk_block 2 0 b0))) b1 && block_beq (fst (fst (cont_block (cflag 0) 1 false b1))) b2 end.
+  match c with (_, b0, b1, b2, b3, used) =>
+    block_beq (fst (fst (brk_block 2 0 b0))) b1 && block_beq (fst (fst (cont_block (cflag 0) 1 false false b1))) b2
+    && block_beq (fst (return_pass b2)) b3 && Bool.eqb (snd (return_pass b2)) used end.
+Definition which_fails (c : lcase) : nat :=
+  match c with (_, b0, b1, b2, b3, used) =>
+    if negb (block_beq (fst (fst (brk_block 2 0 b0))) b1) then 1
+    else if negb (block_beq (fst (fst (cont_block (cflag 0) 1 false false b1))) b2) then 2
+    else if negb (block_beq (fst (return_pass b2)) b3 && Bool.eqb (snd (return_pass b2)) used) then 3 else 0 end.
 Definition failing_lcases (cs : list lcase) : list nat :=
-  map (fun c => match c with (i, _, _, _) => i end) (filter (fun c => negb (check_lcase c)) cs).
+  map (fun c => match c with (i, _, _, _, _, _) => i end) (filter (fun c => negb (check_lcase c)) cs).
